@@ -11,7 +11,7 @@ import copy
 from typing import Dict, List, Optional, Tuple
 
 from .core import AnalysisError, Repo, unparse
-from .ir import Event, Term, Walker, conj, mk_not, show, subterms
+from .ir import Event, Term, Walker, conj, facts, has_guard, mk_not, show, subterms
 
 SELF = ("self",)
 P = ("attr", SELF, "p")
@@ -32,7 +32,8 @@ def heap_walks(repo: Repo) -> Dict[str, Walker]:
     for m in ("__init__", "is_full", "is_empty", "dad", "left_son", "right_son", "go_up", "go_down",
               "insert", "remove", "update"):
         fi = repo.need_method("Heap", m)
-        out[m] = Walker(repo, fi, self_class="Heap", inline=lambda f: False)
+        out[m] = Walker(repo, fi, self_class="Heap",
+                        inline=lambda f: f.cls == "Heap" and f.name.startswith("_") and not f.name.startswith("__"))
     return out
 
 
@@ -157,7 +158,7 @@ def _flip_cost_comparisons(node: ast.AST) -> ast.AST:
     node = copy.deepcopy(node)
     swap = {ast.Lt: ast.Gt, ast.Gt: ast.Lt, ast.LtE: ast.GtE, ast.GtE: ast.LtE}
     for n in ast.walk(node):
-        if isinstance(n, ast.Compare) and "self.cost[" in unparse(n):
+        if isinstance(n, ast.Compare) and any(isinstance(x, ast.Subscript) for x in ast.walk(n)):
             n.ops = [swap.get(type(o), type(o))() for o in n.ops]
     return node
 
@@ -312,17 +313,34 @@ def check_heap(rep, repo: Repo, pre: str = "") -> None:
         if len(evs) != 2:
             raise AnalysisError(f"Heap.go_down[{pol}]: expected two child selections, found {len(evs)}")
         first, second = evs
+        def sel_leaves(t):
+            t = strip_old(t)
+            if t[0] == "sel":
+                return sel_leaves(t[2]) | sel_leaves(t[3])
+            return {t}
+
         for which, e, best_before in (("left", first, iparam), ("right", second, None)):
-            g, polarity = e.guards[-1]
-            cs = conj(g if polarity else mk_not(g))
-            child = e.value
+            # every guard between the policy dispatch and the selection, flattened into conjuncts
+            own = []
+            seen_policy = False
+            for g, polarity in e.guards:
+                if not seen_policy:
+                    if policy_of(((g, polarity),)):
+                        seen_policy = True
+                    continue
+                own.extend(conj(g if polarity else mk_not(g)))
+            cs = own
+            child = strip_old(e.value)
+            last_forms = (LAST, ("old", LAST))
             okc = is_child(child, which)
-            bound = [c for c in cs if c == ("cmp", "<=", child, LAST)
-                     or c == ("cmp", "<", child, ("bin", "+", *sorted([LAST, ("const", 1)], key=repr)))]
-            src = w.guard_src.get(g)
+            bound = [c for c in cs if c[0] == "cmp" and (
+                (c[1] == "<=" and c[2] == child and strip_old(c[3]) == LAST)
+                or (c[1] == "<" and c[2] == child and strip_old(c[3]) == ("bin", "+", *sorted([LAST, ("const", 1)], key=repr))))]
+            g_last = e.guards[-1][0]
+            src = w.guard_src.get(g_last)
             text = src[1] if src else e.text()
             line = src[0] if src else e.line
-            rep.fn(pre + "H3-down-bound", w.entry, text, okc and len(bound) == 1,
+            rep.fn(pre + "H3-down-bound", w.entry, f"{which} child: " + text, okc and len(bound) == 1,
                    f"the {which} child must be tested against the last occupied position", line=line)
             cc = [x for x in (_cost_cmp(c) for c in cs) if x]
             ok = False
@@ -330,19 +348,19 @@ def check_heap(rep, repo: Repo, pre: str = "") -> None:
             if len(cc) == 1:
                 lo, hi, strict = cc[0]
                 c_pos, other = (lo, hi) if pol == "min" else (hi, lo)
+                c_pos, other = strip_old(c_pos), strip_old(other)
                 if which == "left":
                     ok = c_pos == child and other == iparam
                 else:
-                    # best so far = (left if c1 else i)
-                    g1, p1 = first.guards[-1]
-                    best = ("sel", g1 if p1 else mk_not(g1), first.value, iparam)
-                    ok = c_pos == child and other == best
+                    # best so far: a selection between the left child and i (whatever shape the tests have)
+                    leaves = sel_leaves(other)
+                    ok = c_pos == child and leaves == {strip_old(first.value), iparam} and other[0] == "sel"
                     if c_pos == child and other == iparam:
                         detail = ("the right child is compared with i instead of the better of (i, left): "
                                   "the larger/smaller child can be promoted above its sibling")
                 if not ok and c_pos != child and other == child:
                     detail = f"comparison direction is wrong for policy {pol!r}"
-            rep.fn(pre + "H3-down-cmp", w.entry, text + f"  [{pol}]", ok, detail, line=line)
+            rep.fn(pre + "H3-down-cmp", w.entry, f"{which} child: " + text + f"  [{pol}]", ok, detail, line=line)
     # swap + recursion on the chosen child
     jfinal = None
     for e in w.events:
@@ -353,12 +371,12 @@ def check_heap(rep, repo: Repo, pre: str = "") -> None:
         raise AnalysisError("Heap.go_down: no recursive descent found")
     jfinal = strip_old(jfinal)
     neq = ("cmp", "!=", *sorted([iparam, jfinal], key=repr))
-    rep.ev(pre + "H3-down-rec", rec, any(g == neq and pol for g, pol in rec.guards),
+    rep.ev(pre + "H3-down-rec", rec, has_guard(rec.guards, neq),
            "descent must continue at the chosen child only when it differs from i")
     st = [e for e in w.events if e.kind == "store" and e.target[0] == "idx" and e.target[1] == P]
     sw = {(strip_old(e.target[2]), strip_old(e.value)) for e in st}
     good = sw == {(jfinal, ("idx", P, iparam)), (iparam, ("idx", P, jfinal))} and all(
-        any(g == neq and pol for g, pol in e.guards) for e in st)
+        has_guard(e.guards, neq) for e in st)
     rep.fn(pre + "H3-down-swap", w.entry, "p[j] and p[i] are exchanged when j != i", good,
            "the sift-down does not exchange exactly p[chosen child] and p[i]")
 
@@ -435,9 +453,9 @@ def check_heap(rep, repo: Repo, pre: str = "") -> None:
            "update(p, cost) must set cost[p] = cost")
     white = ("cmp", "==", *sorted([K("WHITE"), ("idx", COLOR, pup)], key=repr))
     ins = [e for e in w.events if e.kind == "call" and e.name == "insert" and e.args == (pup,)
-           and (white, True) in e.guards]
+           and has_guard(e.guards, white)]
     up = [e for e in w.events if e.kind == "call" and e.name == "go_up" and e.args == (("idx", POS, pup),)
-          and (white, False) in e.guards]
+          and has_guard(e.guards, mk_not(white))]
     rep.fn(pre + "H5-update-white", w.entry, "update inserts elements that were never queued", len(ins) == 1,
            "a WHITE element must be inserted by update")
     rep.fn(pre + "H5-update-sift", w.entry, "update sifts a queued element up from its position", len(up) == 1,
@@ -467,7 +485,7 @@ def check_heap(rep, repo: Repo, pre: str = "") -> None:
         false_r = [e for e in rets if e.value == ("const", False)]
         if len(true_r) == 1 and len(false_r) == 1 and len(true_r[0].guards) == 1:
             g, pol = true_r[0].guards[0]
-            if false_r[0].guards == ((g, not pol),):
+            if facts(false_r[0].guards) == (mk_not(g if pol else mk_not(g)),):
                 return g if pol else mk_not(g)
         return None
 
@@ -491,11 +509,11 @@ def check_heap(rep, repo: Repo, pre: str = "") -> None:
         w = W[name]
         guard = ("not", ("call", ("attr", SELF, test), (), ()))
         eff = [e for e in w.events if e.kind == "store" or (e.kind == "call" and e.name in ("go_up", "go_down"))]
-        unguarded = [e for e in eff if (guard, True) not in e.guards]
+        unguarded = [e for e in eff if not has_guard(e.guards, guard)]
         rep.fn(pre + "H6-guard", w.entry, f"{name} changes state only when not {test}()", not unguarded and bool(eff),
                f"{len(unguarded)} effect(s) outside the capacity guard: "
                + "; ".join(e.text() for e in unguarded[:3]))
-        fails = [e for e in w.events if e.kind == "return" and (guard, False) in e.guards]
+        fails = [e for e in w.events if e.kind == "return" and has_guard(e.guards, mk_not(guard))]
         okr = len(fails) == 1 and fails[0].value in (("const", False), ("const", None), ("const", 0))
         rep.fn(pre + "H6-fail", w.entry, f"{name} reports failure when {test}()", okr,
                "the failing path must return a falsy value and nothing else")
@@ -515,7 +533,7 @@ def check_heap(rep, repo: Repo, pre: str = "") -> None:
             rep.fn(pre + "H6-sift", w.entry, "the new element is sifted up from last",
                    len(sift) == 1 and sift[0].seq > ls and (not place or sift[0].seq > place[0].seq),
                    "go_up(last) must follow the placement")
-            rt = [e for e in w.events if e.kind == "return" and (guard, True) in e.guards]
+            rt = [e for e in w.events if e.kind == "return" and has_guard(e.guards, guard)]
             rep.fn(pre + "H6-ok", w.entry, "insert reports success", len(rt) == 1 and rt[0].value == ("const", True),
                    "the successful path must return True")
         else:
@@ -531,7 +549,7 @@ def check_heap(rep, repo: Repo, pre: str = "") -> None:
             sift = [e for e in w.events if e.kind == "call" and e.name == "go_down" and e.args == (("const", 0),)]
             rep.fn(pre + "H6-sift", w.entry, "the root is sifted down after the heap shrank",
                    len(sift) == 1 and sift[0].seq > ls, "go_down(0) must follow last -= 1")
-            rt = [e for e in w.events if e.kind == "return" and (guard, True) in e.guards]
+            rt = [e for e in w.events if e.kind == "return" and has_guard(e.guards, guard)]
             okr = len(rt) == 1 and removed(rt[0].value, rt[0].seq)
             rep.fn(pre + "H6-ok", w.entry, "remove returns the element that was at the root", okr,
                    f"returns '{show(rt[0].value) if rt else '?'}'")
